@@ -85,6 +85,60 @@ IP_TYPES = (ipaddress.IPv4Address, ipaddress.IPv6Address, ipaddress.IPv4Network,
 STR_LEAVES = (uuid.UUID, decimal.Decimal, fractions.Fraction, zoneinfo.ZoneInfo) + IP_TYPES
 
 
+def subst_params(t, sub):
+    """substitute type parameters inside an annotation (Annotated metadata is kept)"""
+    try:
+        if t in sub:
+            return sub[t]
+    except TypeError:
+        return t
+    o = typing_extensions.get_origin(t)
+    args = typing_extensions.get_args(t)
+    if o is None or not args:
+        return t
+    try:
+        if o in (typing.Annotated, typing_extensions.Annotated):
+            return typing.Annotated[(subst_params(args[0], sub),) + tuple(args[1:])]
+        new = tuple(subst_params(a, sub) if not isinstance(a, (str, int, bytes, bool, type(None))) else a for a in args)
+        if o in (typing.Union, types.UnionType):
+            return typing.Union[new]
+        if o in (typing.Literal, typing_extensions.Literal):
+            return t
+        return t.copy_with(new) if hasattr(t, "copy_with") else o[new]
+    except Exception:
+        return t
+
+
+def type_param_map(cls):
+    """TypeVar -> argument for every generic ancestor of cls that is specialised along the bases"""
+    m = {}
+
+    def walk(c, sub):
+        for b in getattr(c, "__orig_bases__", ()):
+            o = typing_extensions.get_origin(b)
+            if o is None or not getattr(o, "__parameters__", None):
+                continue
+            args = tuple(subst_params(a, sub) for a in typing_extensions.get_args(b))
+            inner = dict(zip(o.__parameters__, args))
+            m.update(inner)
+            walk(o, inner)
+        for b in getattr(c, "__bases__", ()):
+            if b is not object and not any(typing_extensions.get_origin(ob) is b for ob in getattr(c, "__orig_bases__", ())):
+                walk(b, sub)
+
+    walk(cls, {})
+    return m
+
+
+def resolved_hints(cls):
+    """get_type_hints with the type parameters of specialised generic ancestors substituted"""
+    hints = typing_extensions.get_type_hints(cls, include_extras=True)
+    m = type_param_map(cls)
+    if not m:
+        return hints
+    return {k: subst_params(v, m) for k, v in hints.items()}
+
+
 class RefGen:
     """generates reference source for one schema; objects are bound under fresh names in ns"""
 
